@@ -45,6 +45,9 @@ func NewInitiator(conn net.Conn, handler InitiatorHandler, bufSize int, writeDea
 func (c *Initiator) Close() {
 	c.conn.Close()
 	c.cancel()
+	// Nothing reads handler.Outgoing() once the client is closed: stop the
+	// handler as well, otherwise its senders block forever.
+	c.handler.Stop()
 }
 
 // Send is used to send a FIX message.
